@@ -48,20 +48,25 @@ NP_ZERO = {"zeros", "zeros_like", "empty", "empty_like"}
 NP_ONE = {"ones", "ones_like", "full", "full_like", "eye", "identity"}
 
 
+EXTRA_TABLES = {"trafo_characteristic_table", "shunt_characteristic_table", "characteristic",
+                "q_capability_curve_table", "q_capability_characteristic"}
+
+
 class AV:
     """Abstract value."""
-    __slots__ = ("deps", "kind", "data", "shape", "via", "view", "ctrl")
+    __slots__ = ("deps", "kind", "data", "shape", "via", "view", "origin")
 
-    def __init__(self, deps=E, kind="val", data=None, shape=sh.TOP, via=E, view=None):
+    def __init__(self, deps=E, kind="val", data=None, shape=sh.TOP, via=E, view=None, origin=None):
         self.deps = deps
         self.kind = kind
         self.data = data
         self.shape = shape
         self.via = via
         self.view = view  # None (fresh) | frozenset of storage paths this value may alias
+        self.origin = origin  # name of the local variable this value is the same object as
 
     def with_(self, **kw):
-        a = AV(self.deps, self.kind, self.data, self.shape, self.via, self.view)
+        a = AV(self.deps, self.kind, self.data, self.shape, self.via, self.view, self.origin)
         for k, v in kw.items():
             setattr(a, k, v)
         return a
@@ -79,7 +84,7 @@ def const(v) -> AV:
         return AV(E, "const", v, sh.literal(v))
     if isinstance(v, complex):
         return AV(E, "const", v, sh.literal(v))
-    return AV(E, "const", v, sh.S(sh.PURE) if isinstance(v, bool) else sh.TOP)
+    return AV(E, "const", v, sh.S(sh.PURE) if isinstance(v, (bool, str)) or v is None else sh.TOP)
 
 
 BOTTOM = AV(E, "bottom", None, sh.ZERO)
@@ -203,7 +208,7 @@ class Interp:
 
     def __init__(self, repo: Repo, schema: Optional[Schema] = None, max_depth: int = 4,
                  net_names=("net",), ppc_names=("ppc", "ppci"), summaries: Optional[Dict[str, Callable]] = None,
-                 on_call: Optional[Callable] = None, track_calls: bool = False, unroll_limit: int = 24):
+                 on_call: Optional[Callable] = None, track_calls: bool = False, unroll_limit: int = 64):
         self.repo = repo
         self.schema = schema or Schema(repo)
         self.max_depth = max_depth
@@ -225,6 +230,8 @@ class Interp:
         self.heap: Dict[str, AV] = {}         # store-to-load forwarding for res_* / internal columns
         self.forward_heap = True
         self.record_local_stores = False
+        self.bind_defaults_at_entry = False
+        self.assume_schema_columns = False   # "col" in net.<table> is True for schema columns
         self._idxnames: Dict[str, Dict[int, str]] = {}
 
     IDX_MODULES = {"bus": "pandapower.pypower.idx_bus", "branch": "pandapower.pypower.idx_brch",
@@ -275,8 +282,8 @@ class Interp:
                 env[p.arg] = args[p.arg]
             elif d is not None and (args is not None and depth > 0):
                 env[p.arg] = self.eval(d, fr)
-            elif d is not None and isinstance(d, ast.Constant) and depth == 0 and args is not None and p.arg in args.get("__use_defaults__", ()):
-                env[p.arg] = const(d.value)
+            elif d is not None and depth == 0 and self.bind_defaults_at_entry and fold(d) is not NOFOLD:
+                env[p.arg] = self.eval(d, fr)
             else:
                 env[p.arg] = self.default_arg(p.arg)
         if a.vararg:
@@ -644,6 +651,16 @@ class Interp:
             # weak update of a local array; a write through a view reaches the aliased storage
             if base.view:
                 self._record_view_write(base, v, fr, st, op, idx)
+            if isinstance(target.value, ast.Subscript) and base.kind == "val":
+                # element of a local container: d[k][mask] = v  ->  weak update of d[k]
+                cont = self.eval(target.value.value, fr)
+                key = self.eval(target.value.slice, fr)
+                if cont.kind == "dict" and key.is_const and isinstance(cont.data, dict):
+                    try:
+                        cont.data[key.data] = AV(base.deps | deps_of(v) | idx.deps | fr.ctrl_deps(), "val", None,
+                                                 sh.add(base.shape, shape_of(v)), base.via | v.via, base.view)
+                    except TypeError:
+                        pass
             if isinstance(target.value, ast.Name) and target.value.id in fr.env:
                 old = fr.env[target.value.id]
                 if self.record_local_stores:
@@ -654,8 +671,14 @@ class Interp:
                     self._mkstore(f"local.{target.value.id}.{lc if lc is not None else '*'}", v, idx, fr, st, op)
                 if old.kind == "val":
                     c = fr.ctrl_deps()
-                    fr.env[target.value.id] = AV(old.deps | v.deps | idx.deps | c, "val", None,
-                                                 sh.add(old.shape, v.shape), old.via | v.via, old.view)
+                    new = AV(old.deps | deps_of(v) | idx.deps | c, "val", None,
+                             sh.add(old.shape, shape_of(v)), old.via | v.via, old.view, old.origin)
+                    fr.env[target.value.id] = new
+                    if old.origin and old.origin != target.value.id and old.origin in fr.env \
+                            and fr.env[old.origin].kind == "val":
+                        o2 = fr.env[old.origin]
+                        fr.env[old.origin] = AV(o2.deps | new.deps, "val", None, sh.add(o2.shape, shape_of(v)),
+                                                o2.via | v.via, o2.view, o2.origin)
 
     # ------------------------------------------------------------------ expressions
     def eval(self, node, fr: Frame) -> AV:
@@ -674,7 +697,10 @@ class Interp:
     def e_Name(self, node, fr):
         n = node.id
         if n in fr.env:
-            return fr.env[n]
+            v = fr.env[n]
+            if v.kind == "val" and v.origin is None:
+                v = v.with_(origin=n)
+            return v
         return self.global_name(n, fr)
 
     def global_name(self, n: str, fr: Frame) -> AV:
@@ -702,11 +728,15 @@ class Interp:
                     return a
                 if isinstance(node, ast.Call) and dotted(node.func) in ("np.sqrt", "sqrt", "math.sqrt") and node.args:
                     return AV(E, "const", NOFOLD, sh.S(sh.PURE))
+                if isinstance(node, ast.Call) and len(node.args) == 1 and isinstance(node.args[0], ast.Name) \
+                        and node.args[0].id in mod.functions:
+                    # name = decorator(...)(function): the wrapped function
+                    return AV(E, "func", mod.functions[node.args[0].id])
                 return AV(frozenset([f"global.{mod.name}.{n}"]), "val", None, sh.TOP)
             if r[0] == "module":
                 return AV(E, "module", r[1])
             if r[0] == "external":
-                return AV(E, "ext", r[1])
+                return ext_value(r[1])
         return AV(E, "ext", n)
 
     def e_Attribute(self, node, fr):
@@ -715,6 +745,10 @@ class Interp:
 
     def getattr_av(self, base: AV, attr: str, fr, node=None) -> AV:
         k = base.kind
+        if k == "colormeth":
+            # tab.col.<attr>: the attribute access was a column
+            base = base.with_(kind="val", data=None)
+            k = "val"
         if k == "net":
             return self.net_member(base, attr)
         if k == "table":
@@ -725,7 +759,8 @@ class Interp:
                 return AV(base.deps | frozenset(f"{tag}.{t}.@index" for t in names), "val", None,
                           sh.S(sh.PURE), view=frozenset(f"{tag}.{t}.@index" for t in names))
             if attr in ("columns", "dtypes"):
-                return AV(base.deps | frozenset(f"{tag}.{t}.@columns" for t in names), "val", None, sh.TOP)
+                return AV(base.deps | frozenset(f"{tag}.{t}.@columns" for t in names), "columns",
+                          (tag, names, base.view is not None), sh.TOP)
             if attr in ("empty", "shape", "size"):
                 return AV(base.deps | frozenset(f"{tag}.{t}.@len" for t in names), "val", None, sh.S(sh.PURE))
             if attr in ("values", "T"):
@@ -743,7 +778,7 @@ class Interp:
                 return self._resolved_to_av(r, attr)
             return AV(E, "ext", full)
         if k == "ext":
-            return AV(E, "ext", f"{base.data}.{attr}")
+            return ext_value(f"{base.data}.{attr}")
         if k == "obj":
             if attr in base.data:
                 return base.data[attr]
@@ -786,7 +821,7 @@ class Interp:
             return AV(frozenset([f"{tag}.sn_mva"]), "val", None, sh.base_power(f"{tag}.sn_mva"))
         if name == "f_hz":
             return AV(frozenset([f"{tag}.f_hz"]), "val", None, sh.S(sh.Mono({sh.SEC: -1}, facs=[f"{tag}.f_hz"])))
-        if self.schema.is_table(name) or name.startswith("res_") or name in ("trafo_characteristic_table", "shunt_characteristic_table", "characteristic", "q_capability_curve_table", "q_capability_characteristic"):
+        if self.schema.is_table(name) or name.startswith("res_") or name in EXTRA_TABLES:
             return AV(E, "table", (tag, frozenset([name])), sh.TOP, E, frozenset([f"{tag}.{name}"]))
         if name in ("get", "keys", "items", "values", "update", "pop", "copy", "deepcopy", "__contains__", "clear"):
             return AV(E, "bound", (base, name))
@@ -1077,6 +1112,24 @@ class Interp:
     def e_Compare(self, node, fr):
         l = self.eval(node.left, fr)
         rs = [self.eval(c, fr) for c in node.comparators]
+        if (self.assume_schema_columns and len(rs) == 1 and isinstance(node.ops[0], (ast.In, ast.NotIn))
+                and l.is_const and isinstance(l.data, str)):
+            tb = rs[0]
+            names = None
+            if tb.kind == "columns" and tb.data[2]:
+                names = tb.data[1]
+            elif tb.kind == "table" and tb.view is not None:
+                names = tb.data[1]
+            if names and all(l.data in self.schema.input_columns(t) for t in names):
+                return const(isinstance(node.ops[0], ast.In))
+            if tb.kind == "net" and (self.schema.is_table(l.data) or l.data in self.schema.structure or l.data in EXTRA_TABLES):
+                return const(isinstance(node.ops[0], ast.In))
+        if (len(rs) == 1 and isinstance(node.ops[0], (ast.In, ast.NotIn)) and l.is_const and rs[0].kind == "dict"
+                and isinstance(rs[0].data, dict) and not rs[0].deps):
+            try:
+                return const((l.data in rs[0].data) == isinstance(node.ops[0], ast.In))
+            except TypeError:
+                pass
         r0 = as_pyconst(rs[0]) if len(rs) == 1 else None
         l0 = as_pyconst(l)
         if len(rs) == 1 and l0 is not None and r0 is not None:
@@ -1496,6 +1549,14 @@ class Interp:
             d = {}
             if a0 is not None and a0.kind == "dict":
                 d.update(a0.data)
+            elif a0 is not None:
+                # dict(zip(keys, values)): a mapping whose lookups depend on both
+                shp = sh.TOP
+                if a0.kind == "list" and a0.data and all(x.kind == "tuple" and len(x.data) == 2 for x in a0.data):
+                    shp = shape_of(join_all([x.data[1] for x in a0.data]))
+                elif a0.kind == "zip" and len(a0.data) == 2:
+                    shp = shape_of(a0.data[1])
+                return AV(alld, "val", None, shp, via | frozenset(["dict"]))
             d.update(kwargs)
             return AV(E, "dict", d)
         if name in ("zip", "enumerate", "range", "map", "filter"):
@@ -1515,6 +1576,8 @@ class Interp:
                         return AV(E, "list", [const(i) for i in r])
                 except Exception:
                     pass
+            if name == "zip":
+                return AV(alld, "zip", list(args), sh.TOP, via)
             return AV(alld, "val", None, sh.S(sh.PURE) if name == "range" else sh.TOP, via)
         if name in ("sum", "max", "min", "any", "all"):
             if a0 is not None and a0.kind in ("list", "tuple"):
@@ -1643,6 +1706,18 @@ class Interp:
 
 
 # ------------------------------------------------------------------------------------ helpers
+PURE_EXT_CONSTS = {"math.pi", "np.pi", "numpy.pi", "math.e", "np.e", "numpy.e", "cmath.pi", "scipy.pi"}
+NAN_EXT_CONSTS = {"np.nan", "numpy.nan", "np.inf", "numpy.inf", "math.inf", "math.nan", "np.NaN", "np.Inf", "numpy.NaN"}
+
+
+def ext_value(name: str) -> AV:
+    if name in PURE_EXT_CONSTS:
+        return AV(E, "const", NOFOLD, sh.S(sh.PURE))
+    if name in NAN_EXT_CONSTS:
+        return AV(E, "const", NOFOLD, sh.ZERO)
+    return AV(E, "ext", name)
+
+
 def _load(t):
     import copy as _c
     n = _c.copy(t)
@@ -1705,7 +1780,7 @@ def as_pyconst(v: AV) -> Optional[AV]:
 
 
 def deps_of(v: AV) -> FrozenSet[str]:
-    if v.kind in ("tuple", "list"):
+    if v.kind in ("tuple", "list", "zip"):
         out = set(v.deps)
         for x in v.data:
             out |= deps_of(x)
@@ -1756,6 +1831,8 @@ def iter_items(it: AV) -> Optional[List[AV]]:
 
 
 def element_of(it: AV) -> AV:
+    if it.kind == "zip":
+        return AV(E, "tuple", [element_of(x) for x in it.data])
     if it.kind in ("list", "tuple"):
         if not it.data:
             return AV(it.deps, "val")
@@ -1859,7 +1936,17 @@ def _summ_identity_first(interp, fi, args, kwargs, fr, node):
     return args[0] if args else UNKNOWN
 
 
+def _summ_get_values(interp, fi, args, kwargs, fr, node):
+    # get_values(source, selection, lookup): source[lookup[selection]]
+    src = args[0] if args else kwargs.get("source", UNKNOWN)
+    d = set()
+    for a in list(args) + list(kwargs.values()):
+        d |= deps_of(a)
+    return AV(frozenset(d), "val", None, shape_of(src), src.via)
+
+
 DEFAULT_SUMMARIES: Dict[str, Callable] = {
     "_sum_by_group": _summ_sum_by_group,
     "_sum_by_group_nvals": _summ_sum_by_group,
+    "get_values": _summ_get_values,
 }
